@@ -36,6 +36,7 @@ class Exec(ExprMixin, StmtMixin, CallMixin):
         self.qvars = []
         self.named_facts = {}
         self.param_cache = {}
+        self.iter_snaps = []
         self.listsets = False
         for m in (models or []): m.install(self)
 
@@ -105,7 +106,8 @@ class Exec(ExprMixin, StmtMixin, CallMixin):
         if n in ('forall', 'exists'):
             if not isinstance(a[0], ast.Name): raise StaleContract('quantifier variable')
             self.qdepth += 1
-            j = fresh(a[0].id, I)
+            # canonical bound-variable names (name + nesting depth): the same clause evaluated twice yields the same term
+            j = z3.Int('%s?%d' % (a[0].id, len(self.qvars)))
             q = p.fork(); q.env[a[0].id] = VInt(j); self.qvars.append(j)
             try:
                 if len(a) == 4:
@@ -127,6 +129,12 @@ class Exec(ExprMixin, StmtMixin, CallMixin):
             o = self.old_stack[-1]; q = o.fork()
             for k, v in p.env.items():
                 if k not in o.env: q.env[k] = v      # quantifier variables, result, ghost counters
+            return self.ev(a[0], q)
+        if n == 'prev':
+            if not self.iter_snaps: raise StaleContract('prev() outside a loop-body lemma use')
+            o = self.iter_snaps[-1]; q = o.fork()
+            for k, v in p.env.items():
+                if k not in o.env: q.env[k] = v
             return self.ev(a[0], q)
         if n == 'kind': return VInt(Tok.kind(self.ev(a[0], p).t))
         if n == 'value': return VInt(Tok.val(self.ev(a[0], p).t))
@@ -215,7 +223,7 @@ class Exec(ExprMixin, StmtMixin, CallMixin):
         if c is None: raise StaleContract('no contract for ' + key)
         self.fn = fn; self.contract = c; self.vcs = []; self.pure_cache = {}
         self.listsets = 'listsets' in c.get('theory', [])
-        self.rec_kinds = {nm: kd for lc in c.get('loops', {}).values() for nm, (kd, _) in lc.get('record', {}).items()}
+        self.rec_kinds = {nm: v[0] for lc in c.get('loops', {}).values() for nm, v in lc.get('record', {}).items()}
         self.defs = dict(self.global_defs); self.defs.update(c.get('defs', {}))
         nloops = len(fn.loop_nodes)
         for o in c.get('loops', {}):
@@ -374,6 +382,7 @@ def named_of_kind(name, k):
     """Like fresh_of_kind but with stable, readable names (function parameters)."""
     if k in ('int', 'enum'): return VInt(z3.Int(name))
     if k == 'var': return VLpVar(z3.Const(name, Var))
+    if k == 'aff': return VAff(z3.Int(name))
     if k == 'bool': return VBool(z3.Bool(name))
     if k == 'real': return VReal(z3.Real(name))
     if k == 'ref': return VRef(z3.Int(name))
@@ -394,6 +403,8 @@ def _verify_lemma(self, name, L):
         key = 'lemma:' + name; qualname = name; module = 'lemma'; loops = {}; loop_nodes = []; lines = (0, 0); path = 'contracts'
         sha256 = ''
     self.fn = _F(); self.contract = L; self.vcs = []; self.named_facts = {}
+    if L.get('assumed'):      # an assumption, listed as such in evidence; nothing is proved here
+        return [], dict(function='lemma:' + name, file='contracts', lines=[0, 0], sha256='', stmts_executed=0, paths=0, vcs=0, assumed=True)
     self.defs = dict(self.global_defs); self.defs.update(L.get('defs', {}))
     p = Path()
     for n, k in L.get('vars', {}).items(): p.env[n] = self.make_value(k, n, p)
